@@ -223,8 +223,20 @@ impl Cqueue {
             .take()
             .expect("join handler not set");
         // always wait until the coroutine is really gone: it still uses the
-        // cqueue after it has pushed its Done event
+        // cqueue after it has pushed its Done event. wait with the cancel
+        // disabled, a canceled poller would drop the handle and go on
+        let cancel = if crate::coroutine_impl::is_coroutine() {
+            Some(current_cancel_data())
+        } else {
+            None
+        };
+        if let Some(c) = cancel {
+            c.disable_cancel();
+        }
         let result = handle.join();
+        if let Some(c) = cancel {
+            c.enable_cancel();
+        }
         if self.is_panicking.load(Ordering::Relaxed) {
             // a panic was re-raised already, the others are only waited for
             return;
